@@ -193,6 +193,7 @@ def carry_time_frac(units, carrier, tbase, tunit):
 
 
 SHARED_SPANS = {}
+TBUFS = {}
 
 
 def shared(lst, conc):
@@ -248,7 +249,17 @@ def build(call, conc):
     unit, tb = c["unit"], c["tbase"]
     fv = lambda v: cval(v, c)  # noqa: E731
     X = lambda: carry_data(call["x"], c["xc"], c, fv)  # noqa: E731
-    T = lambda: carry_time(call["t"], c["tc"], tb, c.get("tunit", 1))  # noqa: E731
+    def T():
+        fresh = carry_time(call["t"], c["tc"], tb, c.get("tunit", 1))
+        if c.get("tbuf") and isinstance(fresh, (list, np.ndarray)) and len(fresh):
+            # a caller-owned buffer that is refilled in place for every call (chunked processing): the SAME object, new
+            # content of the same length
+            key = (len(fresh), c["tc"], str(getattr(fresh, "dtype", "list")))
+            buf = TBUFS.setdefault(key, fresh)
+            if buf is not fresh:
+                buf[:] = fresh
+            return buf
+        return fresh
     if fn == "gross":
         kw = {"inp": X(), "fail_span": span(p["fail"], c, fv)}
         if len(p["susp"]):
